@@ -447,6 +447,592 @@ Proof.
   destruct (render_all V0 cs); [|discriminate]. eexists; reflexivity.
 Qed.
 
+(* ====================================================================================
+   The informer path (flow cases)
+   ==================================================================================== *)
+
+Local Arguments render_list : simpl never.
+
+(* ---- string-keyed maps ---- *)
+
+Lemma bytes_eqb_sym a b : bytes_eqb a b = bytes_eqb b a.
+Proof.
+  destruct (bytes_eqb a b) eqn:E1, (bytes_eqb b a) eqn:E2; try reflexivity.
+  - apply bytes_eqb_eq in E1; subst. now rewrite bytes_eqb_refl in E2.
+  - apply bytes_eqb_eq in E2; subst. now rewrite bytes_eqb_refl in E1.
+Qed.
+
+Lemma aget_aset_same A k (v : A) m : aget k (aset k v m) = Some v.
+Proof. unfold aget, aset; simpl. now rewrite bytes_eqb_refl. Qed.
+
+Lemma aget_adel_other A k k' (m : list (bytes * A)) :
+  bytes_eqb k' k = false -> aget k' (adel k m) = aget k' m.
+Proof.
+  intros H. unfold aget, adel. induction m as [|[k2 v2] m IH]; simpl; [reflexivity|].
+  destruct (bytes_eqb k k2) eqn:E; simpl.
+  - apply bytes_eqb_eq in E; subst k2. rewrite H. exact IH.
+  - destruct (bytes_eqb k' k2); [reflexivity|exact IH].
+Qed.
+
+Lemma aget_aset_other A k k' (v : A) m :
+  bytes_eqb k' k = false -> aget k' (aset k v m) = aget k' m.
+Proof.
+  intros H. unfold aset. unfold aget at 1. simpl. rewrite H. now apply aget_adel_other.
+Qed.
+
+Lemma In_adel A k (m : list (bytes * A)) p : In p (adel k m) -> In p m /\ bytes_eqb (fst p) k = false.
+Proof.
+  unfold adel. intros H. apply filter_In in H as [H1 H2]. split; [exact H1|].
+  apply negb_true_iff in H2. now rewrite bytes_eqb_sym.
+Qed.
+
+(* every binding of the list is the one a lookup finds *)
+Definition consistent {A} (m : list (bytes * A)) : Prop := forall k v, In (k, v) m -> aget k m = Some v.
+
+Lemma consistent_nil A : consistent (@nil (bytes * A)).
+Proof. intros k v []. Qed.
+
+Lemma consistent_adel A k (m : list (bytes * A)) : consistent m -> consistent (adel k m).
+Proof.
+  intros Hm k' v' Hin. apply In_adel in Hin as [Hin Hk]. simpl in Hk.
+  rewrite aget_adel_other by exact Hk. now apply Hm.
+Qed.
+
+Lemma consistent_aset A k (v : A) m : consistent m -> consistent (aset k v m).
+Proof.
+  intros Hm k' v' Hin. destruct Hin as [Heq|Hin].
+  - inversion Heq; subst. apply aget_aset_same.
+  - apply In_adel in Hin as [Hin Hk]. simpl in Hk.
+    rewrite aget_aset_other by exact Hk. now apply Hm.
+Qed.
+
+Lemma Forall_adel A (Q : bytes * A -> Prop) k m : Forall Q m -> Forall Q (adel k m).
+Proof.
+  intros H. apply Forall_forall. intros p Hp. apply In_adel in Hp as [Hp _].
+  rewrite Forall_forall in H. now apply H.
+Qed.
+
+Lemma Forall_aset A (Q : bytes * A -> Prop) k v m : Q (k, v) -> Forall Q m -> Forall Q (aset k v m).
+Proof. intros Hv H. constructor; [exact Hv|now apply Forall_adel]. Qed.
+
+(* mapping the values commutes with the map operations *)
+Definition vmap {A B} (g : A -> B) (m : list (bytes * A)) : list (bytes * B) :=
+  map (fun p => (fst p, g (snd p))) m.
+
+Lemma vmap_adel A B (g : A -> B) k m : vmap g (adel k m) = adel k (vmap g m).
+Proof.
+  unfold vmap, adel. induction m as [|[k2 v2] m IH]; simpl; [reflexivity|].
+  destruct (bytes_eqb k k2); simpl; now rewrite IH.
+Qed.
+
+Lemma vmap_aset A B (g : A -> B) k v m : vmap g (aset k v m) = aset k (g v) (vmap g m).
+Proof. unfold aset. simpl. now rewrite vmap_adel. Qed.
+
+Lemma aget_vmap A B (g : A -> B) k m :
+  aget k (vmap g m) = match aget k m with Some v => Some (g v) | None => None end.
+Proof.
+  unfold aget, vmap. induction m as [|[k2 v2] m IH]; simpl; [reflexivity|].
+  destruct (bytes_eqb k k2); [reflexivity|exact IH].
+Qed.
+
+(* ---- what the informer stores for an object ---- *)
+
+Definition jqf_of (b : binding) (w : wobj) : option (list json) :=
+  if b_jq b then Some (w_outs w) else None.
+
+Definition entry_of (b : binding) (w : wobj) : entry :=
+  let e := apply_filter_go (b_jq b) w in if b_keep b then e else remove_full_object e.
+
+Lemma entry_of_id b w : en_id (entry_of b w) = w_id w.
+Proof. unfold entry_of, apply_filter_go. destruct (b_jq b), (b_keep b); reflexivity. Qed.
+
+(* the stored ObjectAndFilterResult is the filter result with the full object kept exactly
+   when the binding keeps full objects *)
+Lemma entry_of_ofr b w :
+  en_ofr (entry_of b w) = apply_filter (jqf_of b w) (b_keep b) (w_obj w).
+Proof. unfold entry_of, apply_filter_go, jqf_of, apply_filter. destruct (b_jq b), (b_keep b); reflexivity. Qed.
+
+Lemma spec_item_ofr b w : ofr_of_item (spec_item b w) = en_ofr (entry_of b w).
+Proof. rewrite entry_of_ofr. reflexivity. Qed.
+
+Definition img (b : binding) (a : list (bytes * wobj)) : cache := vmap (entry_of b) a.
+
+Lemma load_existing_img b ws a :
+  load_existing b ws (img b a) = img b (fold_left (fun a w => aset (w_id w) w a) ws a).
+Proof.
+  unfold load_existing. revert a. induction ws as [|w ws IH]; intros a; simpl; [reflexivity|].
+  change (if b_keep b then apply_filter_go (b_jq b) w else remove_full_object (apply_filter_go (b_jq b) w))
+    with (entry_of b w).
+  rewrite entry_of_id. unfold img at 1. rewrite <- vmap_aset. apply IH.
+Qed.
+
+Lemma handle_cache b a t w :
+  fst (handle b (img b a) t w) = img b (alive_step a (t, w)).
+Proof.
+  unfold handle.
+  change (if b_keep b then apply_filter_go (b_jq b) w else remove_full_object (apply_filter_go (b_jq b) w))
+    with (entry_of b w).
+  rewrite entry_of_id. unfold alive_step, img. simpl.
+  destruct t; simpl; now rewrite ?vmap_aset, ?vmap_adel.
+Qed.
+
+(* every KubeEvent the informer fires — Added, Modified and Deleted alike — carries the
+   object's filter result, with the full object exactly when the binding keeps full objects *)
+Lemma handle_event b c t w c' ev :
+  handle b c t w = (c', Some ev) ->
+  t <> WNone
+  /\ ev = mkKev KEvent [t] [(w_id w, apply_filter (jqf_of b w) (b_keep b) (w_obj w))].
+Proof.
+  unfold handle.
+  change (if b_keep b then apply_filter_go (b_jq b) w else remove_full_object (apply_filter_go (b_jq b) w))
+    with (entry_of b w).
+  rewrite entry_of_id, entry_of_ofr. intros H.
+  destruct t; try discriminate H.
+  - destruct (match aget (w_id w) c with Some old => _ | None => false end); [discriminate H|].
+    destruct (should_fire b WAdded); inversion H; subst. split; [discriminate|reflexivity].
+  - destruct (match aget (w_id w) c with Some old => _ | None => false end); [discriminate H|].
+    destruct (should_fire b WModified); inversion H; subst. split; [discriminate|reflexivity].
+  - destruct (should_fire b WDeleted); inversion H; subst. split; [discriminate|reflexivity].
+Qed.
+
+(* ---- sorting keeps the elements ---- *)
+
+Lemma In_insert_by A (lt : A -> A -> bool) x y l : In x (insert_by lt y l) -> x = y \/ In x l.
+Proof.
+  induction l as [|z l IH]; simpl.
+  - intros [H|[]]; now left.
+  - destruct (lt y z); simpl.
+    + intros [H|H]; [now left|now right].
+    + intros [H|H]; [right; now left|]. destruct (IH H) as [H1|H1]; [now left|right; now right].
+Qed.
+
+Lemma In_sort_by A (lt : A -> A -> bool) x l : In x (sort_by lt l) -> In x l.
+Proof.
+  induction l as [|y l IH]; simpl; [tauto|].
+  intros H. apply In_insert_by in H as [H|H]; [now left|right; now apply IH].
+Qed.
+
+(* ---- rendering depends on the elements only through their ObjectAndFilterResult ---- *)
+
+Definition norm_item (i : item) : item := Raw (ofr_of_item i).
+
+Definition norm_ctx (c : ctx) : ctx :=
+  mkCtx (c_btype c) (c_jq c) (c_incl c) (c_incl_all c) (c_group c) (c_binding c) (c_type c) (c_wev c)
+        (map norm_item (c_objects c))
+        (map (fun p => (fst p, map norm_item (snd p))) (c_snapshots c))
+        (c_areview c) (c_creview c) (c_from c) (c_to c).
+
+Lemma render_items_norm l : map render_item (map norm_item l) = map render_item l.
+Proof. rewrite map_map. apply map_ext. reflexivity. Qed.
+
+Lemma snapshots_json_norm l :
+  snapshots_json (map (fun p => (fst p, map norm_item (snd p))) l) = snapshots_json l.
+Proof.
+  unfold snapshots_json. f_equal. generalize (@nil (bytes * json)).
+  induction l as [|[n its] l IH]; intros acc; simpl; [reflexivity|].
+  rewrite render_items_norm. apply IH.
+Qed.
+
+Lemma map_v1_norm c : map_v1 (norm_ctx c) = map_v1 c.
+Proof.
+  destruct c as [bt jq incl inclall grp bnd kt wev objs snaps arev crev from to].
+  unfold map_v1, norm_ctx, includes; proj.
+  rewrite snapshots_json_norm, render_items_norm.
+  destruct objs as [|i r]; reflexivity.
+Qed.
+
+Lemma map_v0_norm c : map_v0 (norm_ctx c) = map_v0 c.
+Proof.
+  destruct c as [bt jq incl inclall grp bnd kt wev objs snaps arev crev from to].
+  unfold map_v0, norm_ctx; proj.
+  destruct objs as [|i r]; reflexivity.
+Qed.
+
+Lemma render_norm v c : render v (norm_ctx c) = render v c.
+Proof. destruct v; simpl; now rewrite ?map_v1_norm, ?map_v0_norm. Qed.
+
+Lemma render_list_norm1 v c : render_list v [norm_ctx c] = render_list v [c].
+Proof. unfold render_list. simpl. now rewrite render_norm. Qed.
+
+(* ---- a snapshot, element by element ---- *)
+
+(* the objects of the cluster as the invariant sees them *)
+Definition keyed (a : list (bytes * wobj)) : Prop := Forall (fun p => fst p = w_id (snd p)) a.
+
+Lemma resolve_entries b a es :
+  consistent a -> keyed a ->
+  Forall (fun e => exists w, In (w_id w, w) a /\ e = entry_of b w) es ->
+  exists ws, resolve a (map en_id es) = Some ws
+             /\ Forall (fun w => In (w_id w, w) a) ws
+             /\ map (fun e => Raw (en_ofr e)) es = map norm_item (map (spec_item b) ws).
+Proof.
+  intros Hc Hk. induction 1 as [|e es [w [Hin He]] _ [ws [Hr [Hws Hm]]]].
+  - exists []. repeat split; constructor.
+  - exists (w :: ws). subst e. simpl. rewrite entry_of_id, (Hc _ _ Hin), Hr.
+    split; [reflexivity|]. split; [now constructor|].
+    unfold norm_item at 1. rewrite spec_item_ofr. now rewrite Hm.
+Qed.
+
+Lemma snapshot_entries b a :
+  keyed a ->
+  Forall (fun e => exists w, In (w_id w, w) a /\ e = entry_of b w) (snapshot (img b a)).
+Proof.
+  intros Hk. apply Forall_forall. intros e He. unfold snapshot in He. apply In_sort_by in He.
+  unfold img, vmap in He. rewrite map_map in He. simpl in He.
+  apply in_map_iff in He as [[k w] [He Hin]]. simpl in He. exists w. split; [|now symmetry].
+  unfold keyed in Hk. rewrite Forall_forall in Hk. specialize (Hk _ Hin). simpl in Hk. now subst k.
+Qed.
+
+Lemma snapshot_resolved b a name :
+  consistent a -> keyed a ->
+  exists ws, resolve a (snapshot_ids b (img b a) name) = Some ws
+             /\ Forall (fun w => In (w_id w, w) a) ws
+             /\ snapshot_items b (img b a) name = map norm_item (map (spec_item b) ws).
+Proof.
+  intros Hc Hk. unfold snapshot_ids, snapshot_items, snapshots_for.
+  destruct (bytes_eqb name (b_name b)).
+  - apply (resolve_entries b a _ Hc Hk (snapshot_entries b a Hk)).
+  - exists []. repeat split; constructor.
+Qed.
+
+Lemma snapshots_resolved b a names :
+  consistent a -> keyed a ->
+  exists snaps,
+    resolve_snaps a (map (fun n => (n, snapshot_ids b (img b a) n)) names) = Some snaps
+    /\ map fst snaps = names
+    /\ Forall (fun p => Forall (fun w => In (w_id w, w) a) (snd p)) snaps
+    /\ map (fun n => (n, snapshot_items b (img b a) n)) names
+       = map (fun p => (fst p, map norm_item (snd p)))
+             (map (fun p => (fst p, map (spec_item b) (snd p))) snaps).
+Proof.
+  intros Hc Hk. induction names as [|n names [snaps [Hr [Hn [Hf Hm]]]]].
+  - exists []. repeat split; constructor.
+  - destruct (snapshot_resolved b a n Hc Hk) as [ws [Hw [Hwf Hi]]].
+    exists ((n, ws) :: snaps). simpl. rewrite Hw, Hr, Hn, Hi, Hm.
+    repeat split; try reflexivity. now constructor.
+Qed.
+
+(* ---- well-formedness of a flow ---- *)
+
+(* an object whose jq answer is printed canonically *)
+Definition wobj_wf (b : binding) (w : wobj) : bool := wf_item (Some (b_jq b)) (spec_item b w).
+
+Definition flow_wf (f : flow) : bool :=
+  let b := f_bind f in
+  sorted_strict (map (fun n => (n, tt)) (b_incl b))            (* includeSnapshotsFrom sorted, no duplicates *)
+  && forallb (wobj_wf b) (f_initial f)
+  && forallb (fun op => wobj_wf b (snd op)) (f_ops f)
+  && match f_version f with V0 => b_keep b | _ => true end.   (* a v0 config keeps full objects (F15) *)
+
+Lemma wf_item_any jq i : wf_item (Some jq) i = true -> wf_item None i = true.
+Proof.
+  destruct i as [jqf keep obj|o]; [|discriminate]. unfold wf_item.
+  intros H. apply andb_true_iff in H as [_ H]. exact H.
+Qed.
+
+Lemma sorted_strict_keys A B (m : list (bytes * A)) (m' : list (bytes * B)) :
+  map fst m = map fst m' -> sorted_strict m = sorted_strict m'.
+Proof.
+  revert m'. induction m as [|[k v] m IH]; intros [|[k' v'] m'] H; try discriminate; [reflexivity|].
+  simpl in H. inversion H as [[Hk Hm]]. subst k'. simpl. rewrite (IH m' Hm). f_equal.
+  clear IH H. revert m' Hm. induction m as [|[k2 v2] m IH]; intros [|[k2' v2'] m'] Hm; try discriminate; [reflexivity|].
+  simpl in Hm. inversion Hm as [[Hk Hm']]. subst k2'. simpl. now rewrite (IH m' Hm').
+Qed.
+
+Lemma canon_names_sorted l :
+  sorted_strict (map (fun n => (n, tt)) l) = true -> canon_names l = l.
+Proof.
+  intros Hs. unfold canon_names.
+  assert (E : forall acc, fold_left (fun acc n => obj_set n JNull acc) l acc
+                          = fold_left (fun a (kv : bytes * unit) => obj_set (fst kv) JNull a)
+                                      (map (fun n => (n, tt)) l) acc).
+  { clear Hs. induction l as [|n l IH]; intros acc; simpl; [reflexivity|apply IH]. }
+  rewrite E, (fold_obj_set_sorted _ (fun _ => JNull) _ [] Hs (Forall_nil _)). simpl.
+  rewrite !map_map. simpl. apply map_id.
+Qed.
+
+(* ---- one file ---- *)
+
+Definition all_ok (b : binding) (v : version) (a : list (bytes * wobj)) : Prop :=
+  Forall (fun p => wobj_wf b (snd p) = true /\ (v = V1 -> wobj_trigger b (snd p) = false)) a.
+
+Lemma items_wf b v ws jq :
+  Forall (fun w => wobj_wf b w = true /\ (v = V1 -> wobj_trigger b w = false)) ws ->
+  (jq = None \/ jq = Some (b_jq b)) ->
+  forallb (wf_item jq) (map (spec_item b) ws) = true
+  /\ (v = V1 -> existsb item_trigger (map (spec_item b) ws) = false).
+Proof.
+  intros H Hjq. induction H as [|w ws [Hw Ht] _ [IH1 IH2]]; cbn [map forallb existsb]; [split; reflexivity|].
+  split.
+  - rewrite IH1, andb_true_r. destruct Hjq as [->| ->]; [now apply wf_item_any with (jq := b_jq b)|exact Hw].
+  - intros Hv. rewrite (IH2 Hv), orb_false_r. now apply Ht.
+Qed.
+
+Lemma in_all_ok b v a ws :
+  all_ok b v a -> Forall (fun w => In (w_id w, w) a) ws ->
+  Forall (fun w => wobj_wf b w = true /\ (v = V1 -> wobj_trigger b w = false)) ws.
+Proof.
+  intros Ha. unfold all_ok in Ha. rewrite Forall_forall in Ha.
+  apply Forall_impl. intros w Hin. apply (Ha _ Hin).
+Qed.
+
+(* the contexts the documentation describes are well-formed, trigger-free and rendered *)
+Lemma expected_ctx_ok f a kt wev objs snaps :
+  let b := f_bind f in let v := f_version f in
+  flow_wf f = true -> all_ok b v a ->
+  Forall (fun w => In (w_id w, w) a) objs \/ Forall (fun w => wobj_wf b w = true /\ (v = V1 -> wobj_trigger b w = false)) objs ->
+  Forall (fun p => Forall (fun w => In (w_id w, w) a) (snd p)) snaps ->
+  map fst snaps = b_incl b ->
+  (kt = KSync /\ wev = WNone \/ kt = KEvent /\ wev <> WNone /\ exists w, objs = [w]) ->
+  let c := expected_ctx b kt wev objs snaps in
+  wfv v c = true /\ P v [c] (render_list v [c]) = true.
+Proof.
+  intros b v Hwf Ha Hobjs Hsn Hnames Hkind c.
+  unfold flow_wf in Hwf. fold b in Hwf. fold v in Hwf.
+  apply andb_true_iff in Hwf as [Hwf Hv0]. apply andb_true_iff in Hwf as [Hwf _].
+  apply andb_true_iff in Hwf as [Hincl _].
+  assert (Hobjs' : Forall (fun w => wobj_wf b w = true /\ (v = V1 -> wobj_trigger b w = false)) objs).
+  { destruct Hobjs as [H|H]; [now apply (in_all_ok b v a)|exact H]. }
+  destruct (items_wf b v objs (Some (b_jq b)) Hobjs' (or_intror eq_refl)) as [Ho1 Ho2].
+  assert (Hs : forallb (fun p => forallb (wf_item None) (snd p))
+                       (map (fun p => (fst p, map (spec_item b) (snd p))) snaps) = true
+               /\ (v = V1 -> existsb (fun p => existsb item_trigger (snd p))
+                                      (map (fun p => (fst p, map (spec_item b) (snd p))) snaps) = false)).
+  { clear Hnames. induction Hsn as [|[n ws] snaps Hp _ [IH1 IH2]]; simpl; [split; reflexivity|].
+    simpl in Hp. destruct (items_wf b v ws None (in_all_ok b v a ws Ha Hp) (or_introl eq_refl)) as [H1 H2].
+    split; [now rewrite H1, IH1|]. intros Hv. now rewrite (H2 Hv), (IH2 Hv). }
+  destruct Hs as [Hs1 Hs2].
+  assert (Hss : sorted_strict (map (fun p => (fst p, map (spec_item b) (snd p))) snaps) = true).
+  { rewrite <- Hincl. apply sorted_strict_keys. rewrite !map_map. simpl. rewrite <- Hnames.
+    rewrite map_map. reflexivity. }
+  assert (Hw1 : wf1 c = true).
+  { unfold wf1, wf_snapshots, c, expected_ctx, grouped; proj. rewrite Hss, Hs1. simpl.
+    destruct (negb (is_nil (b_group b))); [reflexivity|].
+    destruct Hkind as [[-> ->]|[-> [Hw [w ->]]]].
+    - exact Ho1.
+    - simpl in Ho1. rewrite andb_true_r in Ho1. destruct wev; [congruence| | |]; exact Ho1. }
+  assert (Hw0 : v = V0 -> wf0 c = true).
+  { intros Hv. rewrite Hv in Hv0. unfold wf0, c, expected_ctx; proj.
+    destruct objs as [|w r]; [reflexivity|]. simpl. exact Hv0. }
+  assert (Ht : T v [c] = false).
+  { unfold T. destruct v; try reflexivity. simpl. rewrite orb_false_r.
+    unfold ctx_trigger, c, expected_ctx; proj. now rewrite (Ho2 eq_refl), (Hs2 eq_refl). }
+  split.
+  - unfold wfv. destruct v; [now apply Hw0|exact Hw1|reflexivity].
+  - assert (Hr : exists out, render_list v [c] = Some out).
+    { destruct v eqn:Ev.
+      - apply v0_total. simpl. now rewrite (Hw0 eq_refl).
+      - apply v1_total.
+      - unfold render_list. simpl. eexists; reflexivity. }
+    destruct Hr as [out Hr]. rewrite Hr. now apply contract_partial.
+Qed.
+
+(* the file the model writes for a fired event / for the Synchronization *)
+Lemma file_event_ok f pre t w r a :
+  let b := f_bind f in let v := f_version f in
+  flow_wf f = true ->
+  f_ops f = pre ++ (t, w) :: r ->
+  a = alive_at f (S (length pre)) ->
+  consistent a -> keyed a -> all_ok b v a ->
+  wobj_wf b w = true -> (v = V1 -> wobj_trigger b w = false) -> t <> WNone ->
+  P_file f (file_of v b (img b a) (N.of_nat (S (length pre)))
+                    (mkKev KEvent [t] [(w_id w, apply_filter (jqf_of b w) (b_keep b) (w_obj w))])) = true.
+Proof.
+  intros b v Hwf Hops Ha Hc Hk Hok Hww Hwt Ht.
+  assert (Hincl : canon_names (b_incl b) = b_incl b).
+  { apply canon_names_sorted. unfold flow_wf in Hwf. fold b in Hwf.
+    apply andb_true_iff in Hwf as [Hwf _]. apply andb_true_iff in Hwf as [Hwf _].
+    now apply andb_true_iff in Hwf as [Hwf _]. }
+  destruct (snapshots_resolved b a (b_incl b) Hc Hk) as [snaps [Hr [Hn [Hf Hm]]]].
+  assert (Hctx : map (update_snapshots b (img b a))
+                     (convert_kube_event b (mkKev KEvent [t] [(w_id w, apply_filter (jqf_of b w) (b_keep b) (w_obj w))]))
+                 = [norm_ctx (expected_ctx b KEvent t [w] snaps)]).
+  { unfold convert_kube_event, update_snapshots, norm_ctx, expected_ctx, include_from; simpl.
+    rewrite bytes_eqb_refl, Hm. reflexivity. }
+  unfold P_file, file_of. cbn [fo_step fo_ids fo_snaps fo_out ke_type ke_objs ke_wevs]. fold b. fold v.
+  rewrite Hctx, render_list_norm1.
+  rewrite Nat2N.id. rewrite <- Ha.
+  unfold include_from. rewrite bytes_eqb_refl, Hincl.
+  rewrite map_map. simpl. rewrite map_id, list_eqb_refl by apply bytes_eqb_refl. simpl.
+  rewrite Hr, Hops, nth_error_app2, Nat.sub_diag by lia. simpl.
+  rewrite bytes_eqb_refl. simpl.
+  destruct (expected_ctx_ok f a KEvent t [w] snaps Hwf Hok) as [H1 H2].
+  - right. constructor; [split; assumption|constructor].
+  - exact Hf.
+  - exact Hn.
+  - right. split; [reflexivity|]. split; [exact Ht|now exists w].
+  - fold b in H1, H2. fold v in H1, H2. now rewrite H1, H2.
+Qed.
+
+Lemma file_sync_ok f a :
+  let b := f_bind f in let v := f_version f in
+  flow_wf f = true ->
+  a = alive_at f 0 ->
+  consistent a -> keyed a -> all_ok b v a ->
+  P_file f (file_of v b (img b a) 0 (mkKev KSync [] [])) = true.
+Proof.
+  intros b v Hwf Ha Hc Hk Hok.
+  assert (Hincl : canon_names (b_incl b) = b_incl b).
+  { apply canon_names_sorted. unfold flow_wf in Hwf. fold b in Hwf.
+    apply andb_true_iff in Hwf as [Hwf _]. apply andb_true_iff in Hwf as [Hwf _].
+    now apply andb_true_iff in Hwf as [Hwf _]. }
+  destruct (snapshots_resolved b a (b_incl b) Hc Hk) as [snaps [Hr [Hn [Hf Hm]]]].
+  destruct (snapshot_resolved b a (b_name b) Hc Hk) as [ws [Hw [Hwf' Hi]]].
+  assert (Hctx : map (update_snapshots b (img b a)) (convert_kube_event b (mkKev KSync [] []))
+                 = [norm_ctx (expected_ctx b KSync WNone ws snaps)]).
+  { unfold convert_kube_event, update_snapshots, norm_ctx, expected_ctx, include_from; simpl.
+    rewrite bytes_eqb_refl, Hm, Hi. reflexivity. }
+  unfold P_file, file_of. cbn [fo_step fo_ids fo_snaps fo_out ke_type ke_objs ke_wevs]. fold b. fold v.
+  rewrite Hctx, render_list_norm1.
+  change (N.to_nat 0) with O. rewrite <- Ha.
+  unfold include_from. rewrite bytes_eqb_refl, Hincl.
+  rewrite map_map. simpl. rewrite map_id, list_eqb_refl by apply bytes_eqb_refl. simpl.
+  rewrite Hr, Hw.
+  destruct (expected_ctx_ok f a KSync WNone ws snaps Hwf Hok) as [H1 H2].
+  - left. exact Hwf'.
+  - exact Hf.
+  - exact Hn.
+  - left. split; reflexivity.
+  - fold b in H1, H2. fold v in H1, H2. now rewrite H1, H2.
+Qed.
+
+(* ---- the invariant along a history ---- *)
+
+Definition inv (b : binding) (v : version) (a : list (bytes * wobj)) : Prop :=
+  consistent a /\ keyed a /\ all_ok b v a.
+
+Definition wobj_good (b : binding) (v : version) (w : wobj) : Prop :=
+  wobj_wf b w = true /\ (v = V1 -> wobj_trigger b w = false).
+
+Lemma inv_aset b v a w : inv b v a -> wobj_good b v w -> inv b v (aset (w_id w) w a).
+Proof.
+  intros [Hc [Hk Ho]] Hw. split; [now apply consistent_aset|].
+  split; [apply Forall_aset; [reflexivity|exact Hk] | apply Forall_aset; [exact Hw|exact Ho]].
+Qed.
+
+Lemma inv_adel b v a k : inv b v a -> inv b v (adel k a).
+Proof.
+  intros [Hc [Hk Ho]]. split; [now apply consistent_adel|].
+  split; now apply Forall_adel.
+Qed.
+
+Lemma inv_step b v a t w : inv b v a -> wobj_good b v w -> inv b v (alive_step a (t, w)).
+Proof.
+  intros Hi Hw. unfold alive_step. simpl.
+  destruct t; [exact Hi | now apply inv_aset | now apply inv_aset | now apply inv_adel].
+Qed.
+
+Lemma inv_init b v ws : Forall (wobj_good b v) ws -> inv b v (alive_init ws).
+Proof.
+  unfold alive_init. intros H.
+  assert (G : forall a, inv b v a -> inv b v (fold_left (fun a w => aset (w_id w) w a) ws a)).
+  { induction H as [|w ws Hw _ IH]; intros a Ha; simpl; [exact Ha|]. apply IH. now apply inv_aset. }
+  apply G. split; [apply consistent_nil|]. split; constructor.
+Qed.
+
+Lemma flow_objs_good f :
+  flow_wf f = true -> T_flow f = false ->
+  Forall (wobj_good (f_bind f) (f_version f)) (f_initial f)
+  /\ Forall (fun op => wobj_good (f_bind f) (f_version f) (snd op)) (f_ops f).
+Proof.
+  unfold flow_wf, T_flow. intros Hwf Ht.
+  apply andb_true_iff in Hwf as [Hwf _]. apply andb_true_iff in Hwf as [Hwf Hops].
+  apply andb_true_iff in Hwf as [_ Hini].
+  rewrite forallb_forall in Hini, Hops.
+  split; apply Forall_forall; intros x Hx; (split; [auto|]); intros Hv; rewrite Hv in Ht;
+    apply orb_false_iff in Ht as [T1 T2].
+  - destruct (wobj_trigger (f_bind f) x) eqn:E; [|reflexivity].
+    assert (existsb (wobj_trigger (f_bind f)) (f_initial f) = true) by (apply existsb_exists; eauto). congruence.
+  - destruct (wobj_trigger (f_bind f) (snd x)) eqn:E; [|reflexivity].
+    assert (existsb (fun op => wobj_trigger (f_bind f) (snd op)) (f_ops f) = true) by (apply existsb_exists; eauto).
+    congruence.
+Qed.
+
+Lemma alive_at_prefix f pre r :
+  f_ops f = pre ++ r ->
+  alive_at f (length pre) = fold_left alive_step pre (alive_init (f_initial f)).
+Proof.
+  intros H. unfold alive_at. rewrite H, firstn_app, Nat.sub_diag, firstn_all. simpl. now rewrite app_nil_r.
+Qed.
+
+Lemma alive_at_snoc f pre x r :
+  f_ops f = pre ++ x :: r ->
+  alive_at f (S (length pre)) = alive_step (alive_at f (length pre)) x.
+Proof.
+  intros H. rewrite (alive_at_prefix f pre (x :: r) H).
+  assert (H' : f_ops f = (pre ++ [x]) ++ r) by (now rewrite <- app_assoc).
+  replace (S (length pre)) with (length (pre ++ [x])) by (rewrite app_length; simpl; lia).
+  rewrite (alive_at_prefix f (pre ++ [x]) r H'). now rewrite fold_left_app.
+Qed.
+
+Lemma run_ops_ok f :
+  let b := f_bind f in let v := f_version f in
+  flow_wf f = true -> T_flow f = false ->
+  forall r pre a,
+    f_ops f = pre ++ r -> a = alive_at f (length pre) -> inv b v a ->
+    forallb (P_file f) (run_ops v b (img b a) (N.of_nat (S (length pre))) r) = true.
+Proof.
+  intros b v Hwf Ht.
+  destruct (flow_objs_good f Hwf Ht) as [_ Hgood]. fold b in Hgood. fold v in Hgood.
+  induction r as [|[t w] r IH]; intros pre a Hops Ha Hinv; [reflexivity|].
+  assert (Hw : wobj_good b v w).
+  { rewrite Forall_forall in Hgood. apply (Hgood (t, w)). rewrite Hops. apply in_or_app. right. now left. }
+  cbn [run_ops].
+  destruct (handle b (img b a) t w) as [c' ev] eqn:Hh.
+  pose proof (handle_cache b a t w) as Hc'. rewrite Hh in Hc'. simpl in Hc'. subst c'.
+  set (a' := alive_step a (t, w)) in *.
+  assert (Ha' : a' = alive_at f (S (length pre))).
+  { unfold a'. rewrite Ha. symmetry. now apply (alive_at_snoc f pre (t, w) r). }
+  assert (Hinv' : inv b v a') by (now apply inv_step).
+  rewrite forallb_app. apply andb_true_iff. split.
+  - destruct ev as [ev|]; [|reflexivity].
+    destruct (handle_event b _ t w _ ev Hh) as [Htn ->].
+    cbn [forallb]. rewrite andb_true_r.
+    destruct Hinv' as [Hc [Hk Ho]]. destruct Hw as [Hw1 Hw2].
+    now apply (file_event_ok f pre t w r a').
+  - rewrite <- Nat2N.inj_succ.
+    replace (S (length pre)) with (length (pre ++ [(t, w)])) by (rewrite app_length; simpl; lia).
+    apply IH.
+    + now rewrite <- app_assoc.
+    + rewrite Ha'. f_equal. rewrite app_length; simpl; lia.
+    + exact Hinv'.
+Qed.
+
+(* every file the model produces for a well-formed flow conforms, outside the trigger of F8 *)
+Lemma flow_contract_partial f :
+  flow_wf f = true -> T_flow f = false -> P_flow f (Some (run_flow f)) = true.
+Proof.
+  intros Hwf Ht. unfold P_flow, run_flow.
+  destruct (flow_objs_good f Hwf Ht) as [Hini _].
+  pose proof (inv_init _ _ _ Hini) as Hinv.
+  assert (Hc0 : load_existing (f_bind f) (f_initial f) [] = img (f_bind f) (alive_init (f_initial f))).
+  { apply (load_existing_img (f_bind f) (f_initial f) []). }
+  rewrite Hc0. rewrite forallb_app. apply andb_true_iff. split.
+  - destruct (b_sync (f_bind f)); [|reflexivity]. cbn [forallb]. rewrite andb_true_r.
+    destruct Hinv as [Hc [Hk Ho]]. now apply file_sync_ok.
+  - apply (run_ops_ok f Hwf Ht (f_ops f) [] (alive_init (f_initial f))); [reflexivity|reflexivity|exact Hinv].
+Qed.
+
+(* the cache after any history holds, for every object of the cluster, its filter result
+   with the full object exactly when the binding keeps full objects *)
+Lemma cache_after b ws ops :
+  fold_left (fun c op => fst (handle b c (fst op) (snd op))) ops (load_existing b ws [])
+  = img b (fold_left alive_step ops (alive_init ws)).
+Proof.
+  change (load_existing b ws []) with (load_existing b ws (img b [])).
+  rewrite (load_existing_img b ws []). fold (alive_init ws). generalize (alive_init ws).
+  induction ops as [|[t w] ops IH]; intros a; simpl; [reflexivity|].
+  rewrite handle_cache. apply IH.
+Qed.
+
+Lemma cache_entry_ofr b a id e :
+  In (id, e) (img b a) ->
+  exists w, In (id, w) a /\ en_ofr e = apply_filter (jqf_of b w) (b_keep b) (w_obj w).
+Proof.
+  unfold img, vmap. intros H. apply in_map_iff in H as [[k w] [He Hin]]. simpl in He.
+  inversion He; subst. exists w. split; [exact Hin|apply entry_of_ofr].
+Qed.
+
 (* ---- the witnesses ---- *)
 
 Module Wit.
@@ -507,4 +1093,67 @@ Lemma example_v0_ok :
                          (k_resourceName, JStr (bs "p"));
                          (k_resourceNamespace, JStr (bs "default"))]]).
 Proof. vm_compute. split; reflexivity. Qed.
+(* ---- flows ---- *)
+
+Definition cm (name : string) (v : Z) : json :=
+  JObj [(bs "apiVersion", JStr (bs "v1"));
+        (bs "data", JObj [(bs "v", JNum v)]);
+        (k_kind, JStr (bs "ConfigMap"));
+        (k_metadata, JObj [(k_name, JStr (bs name)); (k_namespace, JStr (bs "d"))])].
+
+(* jqFilter {data: .data} *)
+Definition wcm (name : string) (v : Z) : wobj :=
+  mkWobj (bs "d") (bs name) (bs ("d/ConfigMap/" ++ name)) (cm name v)
+         [JObj [(bs "data", JObj [(bs "v", JNum v)])]].
+
+(* keepFullObjectsInMemory: false, all three event types, includeSnapshotsFrom itself *)
+Definition bind_nokeep : binding :=
+  mkBinding (bs "cms") true false [WAdded; WModified; WDeleted] [bs "cms"] [] true.
+
+Definition example_flow : flow :=
+  mkFlow V1 bind_nokeep [wcm "a" 1]
+         [(WModified, wcm "a" 2); (WAdded, wcm "b" 1); (WDeleted, wcm "a" 2)].
+
+Definition fr (v : Z) : json := JObj [(bs "data", JObj [(bs "v", JNum v)])].
+Definition only_fr (v : Z) : json := JObj [(k_filterResult, fr v)].
+
+Lemma example_flow_ok :
+  flow_wf example_flow = true /\ T_flow example_flow = false
+  /\ map fo_out (run_flow example_flow)
+     = [Some (JArr [JObj [(k_binding, JStr (bs "cms")); (k_objects, JArr [only_fr 1]);
+                          (k_snapshots, JObj [(bs "cms", JArr [only_fr 1])]); (k_type, JStr s_Synchronization)]]);
+        Some (JArr [JObj [(k_binding, JStr (bs "cms")); (k_filterResult, fr 2);
+                          (k_snapshots, JObj [(bs "cms", JArr [only_fr 2])]); (k_type, JStr s_Event);
+                          (k_watchEvent, JStr s_Modified)]]);
+        Some (JArr [JObj [(k_binding, JStr (bs "cms")); (k_filterResult, fr 1);
+                          (k_snapshots, JObj [(bs "cms", JArr [only_fr 2; only_fr 1])]); (k_type, JStr s_Event);
+                          (k_watchEvent, JStr s_Added)]]);
+        Some (JArr [JObj [(k_binding, JStr (bs "cms")); (k_filterResult, fr 2);
+                          (k_snapshots, JObj [(bs "cms", JArr [only_fr 1])]); (k_type, JStr s_Event);
+                          (k_watchEvent, JStr s_Deleted)]])].
+Proof. vm_compute. repeat split. Qed.
+
+(* the predicate is not satisfied by everything: the same Deleted file with the full object
+   of the deleted resource in it does not conform when the binding does not keep full objects *)
+Definition leaking_file : fobs :=
+  mkFobs 3 [bs "d/ConfigMap/a"] [(bs "cms", [bs "d/ConfigMap/b"])]
+         (Some (JArr [JObj [(k_binding, JStr (bs "cms")); (k_filterResult, fr 2); (k_object, cm "a" 2);
+                            (k_snapshots, JObj [(bs "cms", JArr [only_fr 1])]); (k_type, JStr s_Event);
+                            (k_watchEvent, JStr s_Deleted)]])).
+
+Lemma leaking_file_rejected :
+  P_file example_flow leaking_file = false
+  /\ P_file example_flow (mkFobs 3 (fo_ids leaking_file) (fo_snaps leaking_file)
+                                 (fo_out (nth 3 (run_flow example_flow) leaking_file))) = true.
+Proof. vm_compute. split; reflexivity. Qed.
+
+(* F8 on a flow: jqFilter .data.v, the number is rendered as {} *)
+Definition witness_flow_F8 : flow :=
+  mkFlow V1 (mkBinding (bs "cms") true true [WAdded; WModified; WDeleted] [] [] true) []
+         [(WAdded, mkWobj (bs "d") (bs "a") (bs "d/ConfigMap/a") (cm "a" 3) [JNum 3%Z])].
+
+Lemma flow_refuted :
+  flow_wf witness_flow_F8 = true /\ T_flow witness_flow_F8 = true
+  /\ P_flow witness_flow_F8 (Some (run_flow witness_flow_F8)) = false.
+Proof. vm_compute. repeat split. Qed.
 End Wit.
